@@ -481,6 +481,7 @@ type funcCtx struct {
 	maxPath int
 	covered map[*ssa.BasicBlock]bool
 	ipdom   map[*ssa.BasicBlock]*ssa.BasicBlock
+	rename  map[string]string // contract name of a local -> its current name (pure renames are followed)
 }
 
 func (fc *funcCtx) name(kind, site string) string {
@@ -533,6 +534,17 @@ func (e *Engine) VerifyFunc(key string) {
 	}
 	fc.indexSites()
 	fc.ipdom = ipdoms(fn)
+	fc.rename = map[string]string{}
+	if cur := namedLocals(fn); len(con.Locals) > 0 && len(con.Locals) == len(cur) {
+		for i, old := range con.Locals {
+			if old != cur[i] {
+				fc.rename[old] = cur[i]
+			}
+		}
+		if len(fc.rename) > 0 {
+			e.note(fmt.Sprintf("%s: local variables renamed since the contract was written %v; the contract is read with the new names", shortKey(key), fc.rename))
+		}
+	}
 	// attach checks
 	if len(con.Params) != len(fn.Params) {
 		e.failObligation(fc.name("attach", "params"), "attach", shortKey(key), "contract parameter list matches", fmt.Sprintf("contract names %d parameters, function has %d", len(con.Params), len(fn.Params)))
@@ -548,7 +560,7 @@ func (e *Engine) VerifyFunc(key string) {
 			e.failObligation(fc.name("attach", fmt.Sprintf("loop%d", n)), "attach", shortKey(key), "loop exists", fmt.Sprintf("contract refers to loop %d, function has %d loops", n, len(fc.loopLst)))
 			return
 		}
-		if ls.Fingerprint != "" && !strings.HasPrefix(fc.loopLst[n-1].Header, ls.Fingerprint) {
+		if ls.Fingerprint != "" && !strings.HasPrefix(fc.loopLst[n-1].Header, ls.Fingerprint) && !strings.HasPrefix(fc.loopLst[n-1].Header, renameIdents(ls.Fingerprint, fc.rename)) {
 			e.failObligation(fc.name("attach", fmt.Sprintf("loop%d", n)), "attach", shortKey(key), "loop header fingerprint matches", fmt.Sprintf("loop %d header is %q, contract was written for %q", n, fc.loopLst[n-1].Header, ls.Fingerprint))
 			return
 		}
@@ -700,3 +712,40 @@ func (fc *funcCtx) site(pos token.Pos, want string) string {
 }
 
 var startTime = time.Now()
+
+// namedLocals lists the source-level variables of fn (parameters, results, locals) in
+// the order their cells are created, without compiler temporaries.
+func namedLocals(fn *ssa.Function) []string {
+	var out []string
+	for _, b := range fn.Blocks {
+		for _, ins := range b.Instrs {
+			al, ok := ins.(*ssa.Alloc)
+			if !ok || al.Comment == "" {
+				continue
+			}
+			switch al.Comment {
+			case "rangeindex", "complit", "varargs", "slicelit", "defer$stack", "makeslice", "new", "typeassert,ok":
+				continue
+			}
+			if strings.HasPrefix(al.Comment, "defer$") {
+				continue
+			}
+			out = append(out, al.Comment)
+		}
+	}
+	return out
+}
+
+var identTokRe = regexp.MustCompile(`[A-Za-z_][A-Za-z0-9_]*`)
+
+func renameIdents(s string, m map[string]string) string {
+	if len(m) == 0 {
+		return s
+	}
+	return identTokRe.ReplaceAllStringFunc(s, func(t string) string {
+		if n, ok := m[t]; ok {
+			return n
+		}
+		return t
+	})
+}
